@@ -724,7 +724,7 @@ pub fn gen_history<C: Cfg>(rng: &mut SmallRng, o: &GenOpts) -> Vec<HOp> {
         } else if m < 88 {
             if o.bits {
                 let rb = rng.random_range(1..=nbits);
-                let n = *pick(rng, &[1usize, 2, 3, 5, 8, 16, nbits - 1, nbits, rb]);
+                let n = *pick(rng, &[0usize, 1, 2, 3, 5, 8, 16, nbits - 1, nbits, rb]);
                 push(&mut h, &mut nat, HOp::SampleBits { n });
                 nops += 1;
             }
